@@ -1847,6 +1847,14 @@ func runC17M(run *Run) {
 		"levels across lost tail-call frames are compared against the Model only (the property does not define them)",
 		"line numbers: checked by correspondence only (token-line spans of the harness's own renderer); lines_function_of_tokens belongs to C08's lexer model",
 	}
+	if !replayMode.on || wholeRun {
+		for i, line := range c17LoaderIndependence() {
+			if i < 5 {
+				run.Failures = append(run.Failures, Failure{CaseIdx: -9050, Kind: "CRASH", Line: line, Reply: line, Lines: []string{line}})
+			}
+		}
+		run.Extra["loader_independence_runs"] = c17LoaderRuns
+	}
 	root := NewRng(uint64(run.Seed))
 	var cases []Case
 	for i, c := range loadCorpus("C17M") {
